@@ -533,6 +533,20 @@ Definition csv_row (old : bool) (r : csvrow) : outcome abuild :=
     end).
 
 (* ------------------------------------------------------------------ *)
+(* AnnotationStore::selector, AnnotationSelector(a, Some(offset))       *)
+
+(* If the annotation referred to has a text selection of its own (its target is a TextSelector
+   or an AnnotationSelector with offset; [parent] = its length) the offset is resolved
+   relative to it and must lie inside; any other target (resource, data set, key, data,
+   annotation without offset, complex) has no text selection: the offset is dropped and the
+   annotation as a whole is selected.  Result: was the offset kept. *)
+Definition ann_offset (parent : option N) (b e : N) : outcome bool :=
+  match parent with
+  | None => Ok false
+  | Some len => if (b <=? e) && (e <=? len) then Ok true else Err
+  end.
+
+(* ------------------------------------------------------------------ *)
 (* @include                                                            *)
 
 (* TextResourceBuilder::build with "@include": "f.json" and no "text": the file is parsed into
